@@ -29,6 +29,7 @@ struct plan
 };
 
 static plan g;
+static std::size_t g_points = 6;     // sampled points per iteration (8 in the thorough tier)
 
 template <typename T>
 static T bad_value(int kind)
@@ -47,27 +48,35 @@ static T base_value(sz index, T x) { return (index % 5 == 3) ? T() : (index % 2 
 template <typename T>
 struct fn
 {
-    // returns (integrand value, value for the distribution)
-    static void values(T x, T& f, T& dv)
+    // returns (integrand value, value for the distribution); `project` is false where the pair of a faulted
+    // point hands nothing to the distributions: a non-finite value "contributes nothing" to a bin, and under
+    // compensated summation adding an exact zero is not the same as adding nothing (it can flush the pending
+    // compensation into the reported sum, a one-ulp difference that is not a contamination)
+    static void values(T x, T& f, T& dv, bool& project)
     {
         sz const index = g.calls++;
         f = base_value<T>(index, x);
         dv = f;
+        project = true;
         auto const it = g.poison.find(index);
         if (it == g.poison.end()) return;
-        if (g.src == src_value) { f = g.paired ? T() : bad_value<T>(it->second); dv = f; }
-        else if (g.src == src_dist_value) { dv = g.paired ? T() : bad_value<T>(it->second); }
-        else if (g.paired) { f = T(); dv = T(); }     // weight fault: the pair returns zero at these points
+        if (g.src == src_value) { f = g.paired ? T() : bad_value<T>(it->second); dv = f; project = !g.paired; }
+        else if (g.src == src_dist_value) { dv = g.paired ? T() : bad_value<T>(it->second); project = !g.paired; }
+        else if (g.paired) { f = T(); dv = T(); project = false; }     // weight fault: the pair returns zero at these points
     }
-    T operator()(hep::mc_point<T> const& p) const { T f, dv; values(p.point()[0], f, dv); return f; }
+    T operator()(hep::mc_point<T> const& p) const { T f, dv; bool pr; values(p.point()[0], f, dv, pr); return f; }
     T operator()(hep::mc_point<T> const& p, hep::projector<T>& proj) const
     {
-        T f, dv; values(p.point()[0], f, dv); proj.add(0, p.point()[0], dv); proj.add(1, p.point()[0], p.point()[1], dv); return f;
+        T f, dv; bool pr; values(p.point()[0], f, dv, pr);
+        if (pr) { proj.add(0, p.point()[0], dv); proj.add(1, p.point()[0], p.point()[1], dv); }
+        return f;
     }
-    T operator()(hep::multi_channel_point<T> const& p) const { T f, dv; values(p.coordinates()[0], f, dv); return f; }
+    T operator()(hep::multi_channel_point<T> const& p) const { T f, dv; bool pr; values(p.coordinates()[0], f, dv, pr); return f; }
     T operator()(hep::multi_channel_point<T> const& p, hep::projector<T>& proj) const
     {
-        T f, dv; values(p.coordinates()[0], f, dv); proj.add(0, p.coordinates()[0], dv); proj.add(1, p.coordinates()[0], p.point()[0], dv); return f;
+        T f, dv; bool pr; values(p.coordinates()[0], f, dv, pr);
+        if (pr) { proj.add(0, p.coordinates()[0], dv); proj.add(1, p.coordinates()[0], p.point()[0], dv); }
+        return f;
     }
 };
 
@@ -108,7 +117,7 @@ static run_out run(int kind, bool dist)
     vf::script_engine::table().clear();
     vf::script_engine::salt() = 606;
     vf::script_engine gen;
-    std::vector<sz> const calls = {6, 6, 6};
+    std::vector<sz> const calls = {g_points, g_points, g_points};
     auto dparams = hep::make_dist_params<T>(3, T(0), T(1), "d");
     hep::distribution_parameters<T> dparams2(2, 2, T(0), T(1), T(0), T(1), "d2");
     vf::field_mask mask; mask.non_zero_calls = true; mask.bin_counters = true;
@@ -159,10 +168,10 @@ static void enumerate(report& r)
         std::string const base = tn + " integrator=" + std::to_string(kind) + " src=" + std::to_string(src) + " dist=" + std::to_string(dist);
         if (!r.want_prefix(base.substr(0, std::min(base.size(), r.a().replay_case.size())))) continue;
         for (sz iter = 0; iter != 3; ++iter)
-        for (unsigned subset = 1; subset != 64; ++subset)
+        for (unsigned subset = 1; subset != (1u << g_points); ++subset)
         {
             std::vector<sz> members;
-            for (sz b = 0; b != 6; ++b) if (subset & (1u << b)) members.push_back(iter * 6 + b);
+            for (sz b = 0; b != g_points; ++b) if (subset & (1u << b)) members.push_back(iter * g_points + b);
             // kind assignments: all for <= 4 members, uniform otherwise
             std::vector<std::vector<int>> assigns;
             if (members.size() <= 4)
@@ -234,6 +243,7 @@ int main(int argc, char** argv)
 {
     auto const a = vf::parse_args(argc, argv);
     report r(a);
+    if (a.thorough()) g_points = 8;
 #if VF_PART_ENABLED(0)
     if ((a.nshards == 1 || a.shard % 3 == 0) && r.want_prefix("float")) enumerate<float>(r);
 #endif
